@@ -218,3 +218,16 @@ reg('C14',
     level_text='Exhaustive over all 2^32 32-bit values (thorough) for digits and return value, and over every buffer length 0..70 for the truncation rule.',
     level_note='UInt32ToStrBaseSign / UInt64ToStrBaseSign are private functions called by name; the public wrappers are covered by the same loops',
     design_ref='DESIGN.md section 3 / C14')
+
+reg('C15',
+    title='no formatting or copying API writes past the buffer the caller gave it',
+    src='c15_bounds.c',
+    configs={'quick': ['def', 'dtostre'], 'thorough': ['def', 'dtostre', 'heap']},
+    deadline={'quick': 100, 'thorough': 600},
+    level=MC,
+    technique='complete enumeration of a finite product (buffer length x value x function x flags/precision) on the real formatting and copying functions with exact-size heap buffers under ASan',
+    rule='buffer lengths 0..40 x { SCPI_NumberToStr: 12 values incl. NaN/inf x every base unit of the exported table and no unit, every special-number tag incl. an unknown one; SCPI_FloatToStr / SCPI_DoubleToStr: the same values; SCPI_dtostre: the same values x flags 0..7 x precision 0..20; the four integer formatters: 11 boundary values x 4 bases }, and SCPI_ParamCopyText on quoted texts of length 0..12 with 0..3 doubled quotes at every position, both quote characters, buffer lengths 0..16; builds with printf and with the built-in formatter; non-trivial = call whose post-conditions (length, termination) were evaluated',
+    assumptions=['precision of SCPI_dtostre limited to 0..20 (its internal buffer is 32 bytes; larger precisions are outside the statement)'],
+    level_text='The stated product is enumerated completely; every access outside the caller buffer traps under ASan, and termination / returned length are checked on every call.',
+    level_note='quick = thorough for the default and built-in-formatter builds; thorough adds the static-heap build',
+    design_ref='DESIGN.md section 3 / C15')
